@@ -8,6 +8,7 @@ import (
 	"runtime"
 	"sort"
 	"strings"
+	"sync/atomic"
 	"testing"
 	"testing/synctest"
 	"time"
@@ -48,6 +49,7 @@ type Outcome struct {
 	ClockJumps   int               `json:"clock_jumps,omitempty"`
 	GoVersion    string            `json:"go_version,omitempty"`
 	NumCPU       int               `json:"num_cpu,omitempty"`
+	FromSeed     bool              `json:"from_seed,omitempty"` // replay by re-running the seed (hang reports carry no tape)
 }
 
 // NonTrivial is the evidence rule: tasks really interleaved, or a fault fired.
@@ -154,23 +156,65 @@ func strategyOf(i int) simrt.Strategy {
 	return simrt.Strategy{}
 }
 
-var watchdog = make(chan struct{}, 1)
+// A run that spins inside gate-free library code cannot be preempted by the
+// simulator. The watchdog (real time, outside every bubble) turns it into a
+// reportable event: it writes a marker next to the worker's output file and
+// exits 3; the driver reports a "hang" violation with the run's seed.
+var (
+	curStart atomic.Int64 // unix nanos of the current run's start, 0 when idle
+	curInfo  atomic.Pointer[[3]string]
+)
 
 func init() {
+	limit := time.Duration(envIntCore("VERIF_HANG_SEC", 25)) * time.Second
 	go func() {
+		var ms runtime.MemStats
 		for {
-			select {
-			case <-watchdog:
-			case <-time.After(120 * time.Second):
-				if busy.Load() {
-					buf := make([]byte, 1<<20)
-					n := runtime.Stack(buf, true)
-					fmt.Fprintf(os.Stderr, "HARNESS-ERROR watchdog: run did not finish in 120s real time\n%s\n", buf[:n])
-					os.Exit(2)
+			time.Sleep(250 * time.Millisecond)
+			st := curStart.Load()
+			if st == 0 {
+				continue
+			}
+			reason := ""
+			if time.Since(time.Unix(0, st)) > limit {
+				reason = fmt.Sprintf("the run did not finish within %v of real time", limit)
+			} else {
+				runtime.ReadMemStats(&ms)
+				if ms.HeapAlloc > 3<<30 {
+					reason = fmt.Sprintf("the run allocated %d MiB", ms.HeapAlloc>>20)
 				}
 			}
+			if reason == "" {
+				continue
+			}
+			info := curInfo.Load()
+			buf := make([]byte, 1<<16)
+			n := runtime.Stack(buf, true)
+			stack := string(buf[:n])
+			if i := strings.Index(stack, "github.com/tychoish/fun"); i > 2000 {
+				stack = stack[i-2000:]
+			}
+			if len(stack) > 6000 {
+				stack = stack[:6000]
+			}
+			if out := os.Getenv("VERIF_OUT"); out != "" && info != nil {
+				b, _ := json.Marshal(map[string]any{"property": info[0], "workload": info[1], "seed": info[2], "reason": reason, "stacks": stack})
+				_ = os.WriteFile(out+".hang", b, 0o644)
+			}
+			fmt.Fprintf(os.Stderr, "HANG %v: %s\n%s\n", info, reason, stack)
+			os.Exit(3)
 		}
 	}()
+}
+
+func envIntCore(name string, def int) int {
+	if v := os.Getenv(name); v != "" {
+		var n int
+		if _, err := fmt.Sscanf(v, "%d", &n); err == nil {
+			return n
+		}
+	}
+	return def
 }
 
 // RunOne executes one run of wl. A nil tape means search mode from seed.
@@ -185,12 +229,9 @@ func RunOne(t *testing.T, wl *Workload, seed uint64, replay []int32, trace bool)
 	si := tape.Draw(len(strategyNames))
 	out.Strategy = strategyNames[si]
 	w := &W{Out: out, seen: map[string]bool{}, wl: wl}
-	select {
-	case watchdog <- struct{}{}:
-	default:
-	}
-	busy.Store(true)
-	defer busy.Store(false)
+	curInfo.Store(&[3]string{wl.Prop, wl.Name, fmt.Sprint(seed)})
+	curStart.Store(time.Now().UnixNano())
+	defer curStart.Store(0)
 	body := func(t *testing.T) {
 		defer func() {
 			if r := recover(); r != nil {
